@@ -40,6 +40,15 @@ enum Op {
     Adv(u32),
     Res(u32, u64),
     Push(u64, u64),
+    /// `set_peer(PeerHandle{id})` - no effect on either wait (exercised: it takes the same mutex)
+    SetPeer(u64),
+    /// a read-only call: 0 offsets, 1 is_cancelled, 2 cancel_reason, 3 timestamps, 4 peer, 5/6 replay_chunks_from
+    Query(u8),
+    /// (setup only) the producer took the staged resume: `wait_for_reconnect(0)`
+    Take,
+    /// (setup only) an earlier wait of the control's life, replayed with a deadline that has already passed:
+    /// `w:r` = wait_for_reconnect(0), `w:c<len>` = wait_for_credit(len, now)
+    Waited(Option<u64>),
 }
 
 impl Op {
@@ -51,6 +60,11 @@ impl Op {
             Op::Adv(f) => format!("adv:{}", f),
             Op::Res(f, o) => format!("res:{}:{}", f, o),
             Op::Push(o, l) => format!("push:{}:{}", o, l),
+            Op::SetPeer(p) => format!("peer:{}", p),
+            Op::Query(k) => format!("q:{}", k),
+            Op::Take => "take".to_string(),
+            Op::Waited(None) => "w:r".to_string(),
+            Op::Waited(Some(l)) => format!("w:c{}", l),
         }
     }
     fn parse(w: &str) -> Option<Op> {
@@ -62,6 +76,10 @@ impl Op {
             ("adv", 2) => Op::Adv(p[1].parse().ok()?),
             ("res", 3) => Op::Res(p[1].parse().ok()?, p[2].parse().ok()?),
             ("push", 3) => Op::Push(p[1].parse().ok()?, p[2].parse().ok()?),
+            ("peer", 2) => Op::SetPeer(p[1].parse().ok()?),
+            ("q", 2) => Op::Query(p[1].parse().ok()?),
+            ("take", 1) => Op::Take,
+            ("w", 2) => if p[1] == "r" { Op::Waited(None) } else { Op::Waited(Some(p[1].strip_prefix('c')?.parse().ok()?)) },
             _ => return None,
         })
     }
@@ -76,15 +94,71 @@ fn parse_ops(s: &str) -> Option<Vec<Op>> {
     s.split(',').map(Op::parse).collect()
 }
 
-/// A peer that is never used for sending (request_resume only stores it).
-fn dummy_peer() -> repe::PeerHandle {
-    struct Dummy;
+/// A peer that is never used for sending (request_resume / set_peer only store it; the previous one is
+/// dropped under the control's mutex, so some sinks are slow to drop).
+fn dummy_peer(id: u64) -> repe::PeerHandle {
+    struct Dummy(u64);
     impl repe::PeerSink for Dummy {
         fn send_notify(&self, _method: &str, _body: repe::NotifyBody) -> Result<(), repe::PeerSendError> { Ok(()) }
-        fn is_connected(&self) -> bool { true }
+        fn is_connected(&self) -> bool { self.0 % 2 == 0 }
     }
-    repe::PeerHandle::new(repe::PeerId(1), Arc::new(Dummy))
+    impl Drop for Dummy {
+        fn drop(&mut self) { if self.0 % 3 == 2 { std::thread::sleep(Duration::from_micros(150)); } }
+    }
+    repe::PeerHandle::new(repe::PeerId(id), Arc::new(Dummy(id)))
 }
+
+/// The text of cancel reason number `k`: the op line carries the number, the control gets this text
+/// (empty, non-ASCII, long, padded, digits only, the watchdog's own wording). Injective in `k`.
+fn reason_text(k: u64) -> String {
+    if k == 0 { return "transfer idle".to_string(); }
+    if k == 1 { return String::new(); }
+    match k % 6 {
+        0 => format!("r{}", k),
+        1 => format!("annulé ☃ 取消 {}", k),
+        2 => format!("{}{}", "x".repeat(5000), k),
+        3 => format!("{}", k),
+        4 => format!("  padded \t {} ", k),
+        _ => format!("transfer idle {}", k),
+    }
+}
+
+/// Inverse of `reason_text` (None: not a text the harness ever passed).
+fn reason_num(text: &str) -> Option<u64> {
+    if text == "transfer idle" { return Some(0); }
+    if text.is_empty() { return Some(1); }
+    let t = text.trim_end();
+    let digits: String = t.chars().rev().take_while(|c| c.is_ascii_digit()).collect::<Vec<_>>().into_iter().rev().collect();
+    let k: u64 = digits.parse().ok()?;
+    if reason_text(k) == text { Some(k) } else { None }
+}
+
+/// `cancel(reason: impl Into<String>)`: a caller-defined type whose conversion takes a while (it runs
+/// under the control's mutex).
+struct SlowReason(String);
+impl From<SlowReason> for String {
+    fn from(r: SlowReason) -> String { std::thread::sleep(Duration::from_micros(120)); r.0 }
+}
+
+fn push_body_len(off: u64, len: u64) -> usize { [1usize, 0, 17, 1, 3][((off / 1).wrapping_add(len) % 5) as usize] }
+
+/// Replay capacity of the control of a case: a function of the recorded case (so a replay is exact), always
+/// large enough that nothing is evicted (eviction belongs to C13; the C12 model has none): `new(window)`,
+/// exactly the bytes pushed (boundary of `bytes_held > capacity`), one more, `u64::MAX`.
+fn make_control(window: u64, setup: &[Op]) -> Arc<TransferControl> {
+    let total: u64 = setup.iter().map(|o| if let Op::Push(o, l) = o { push_body_len(*o, *l) as u64 } else { 0 }).sum();
+    let h = setup.iter().fold(window, |h, o| h.wrapping_mul(31).wrapping_add(match o { Op::Push(a, b) => a ^ b, Op::Sent(n) => *n, _ => 7 }));
+    match h % 5 {
+        0 => TransferControl::with_replay_capacity(window, total),
+        1 => TransferControl::with_replay_capacity(window, total + 1),
+        2 => TransferControl::with_replay_capacity(window, u64::MAX),
+        3 => TransferControl::with_replay_capacity(window, repe::DEFAULT_REPLAY_RING_BYTES),
+        _ => TransferControl::new(window),
+    }
+}
+
+/// `in_flight == 0 || in_flight + len <= window` with the checked add of the source (an overflowing sum does not fit).
+fn credit_fits(inf: u64, len: u64, window: u64) -> bool { inf == 0 || inf.checked_add(len).map_or(false, |t| t <= window) }
 
 /// What a `request_resume` answered (needed to know whether a pending resume was staged).
 #[derive(Clone, Copy, Debug, PartialEq)]
@@ -94,13 +168,32 @@ fn apply(tc: &TransferControl, op: &Op) -> OpRes {
     match op {
         Op::Sent(n) => { tc.record_sent(*n); OpRes::Unit }
         Op::Ack(f, o) => { tc.record_ack(*f, *o); OpRes::Unit }
-        Op::Cancel(r) => { tc.cancel(format!("r{}", r)); OpRes::Unit }
+        Op::Cancel(r) => {
+            let text = reason_text(*r);
+            match r % 3 { 0 => tc.cancel(text), 1 => tc.cancel(text.as_str()), _ => tc.cancel(SlowReason(text)) }
+            OpRes::Unit
+        }
         Op::Adv(f) => { tc.advance_to_file(*f); OpRes::Unit }
-        Op::Res(f, o) => match tc.request_resume(dummy_peer(), *f, *o) {
+        Op::Res(f, o) => match tc.request_resume(dummy_peer((*f as u64).wrapping_add(*o) % 4), *f, *o) {
             Ok(off) => OpRes::ResumeOk(off),
             Err(_) => OpRes::ResumeErr,
         },
-        Op::Push(o, l) => { tc.push_replay(*o, *l, false, vec![0u8; 1]); OpRes::Unit }
+        Op::Push(o, l) => { tc.push_replay(*o, *l, (o ^ l) % 3 == 0, vec![0u8; push_body_len(*o, *l)]); OpRes::Unit }
+        Op::SetPeer(p) => { tc.set_peer(dummy_peer(*p)); OpRes::Unit }
+        Op::Take | Op::Waited(None) => { let _ = tc.wait_for_reconnect(Duration::ZERO); OpRes::Unit }
+        Op::Waited(Some(len)) => { let _ = tc.wait_for_credit(*len, Instant::now()); OpRes::Unit }
+        Op::Query(k) => {
+            match k % 7 {
+                0 => { let _ = tc.offsets(); }
+                1 => { let _ = tc.is_cancelled(); }
+                2 => { let _ = tc.cancel_reason(); }
+                3 => { let _ = tc.timestamps(); }
+                4 => { let _ = tc.peer().map(|p| p.peer_id()); }
+                5 => { let _ = tc.replay_chunks_from(0); }
+                _ => { let _ = tc.replay_chunks_from(u64::MAX); }
+            }
+            OpRes::Unit
+        }
     }
 }
 
@@ -151,7 +244,11 @@ impl Got {
     fn show(&self) -> String {
         match self {
             Got::Ok => "ok".into(),
-            Got::Cancelled(r) => format!("cancelled:{}", r.strip_prefix('r').unwrap_or(r)),
+            Got::Cancelled(r) => match reason_num(r) {
+                Some(k) => format!("cancelled:{}", k),
+                None if r == "cleanup" => "cancelled:cleanup".to_string(),
+                None => format!("cancelled:?{:x}", fnv(r.as_bytes())),
+            },
             Got::Resume(o) => format!("resume:{}", o),
             Got::Timeout => "timeout".into(),
             Got::Parked => "parked".into(),
@@ -166,7 +263,7 @@ fn acceptable(kind: &Kind, window: u64, sent: u64, acked: u64, cancelled: &Optio
     let mut v = Vec::new();
     if let Some(r) = cancelled { v.push(Got::Cancelled(r.clone())); }
     match kind {
-        Kind::Credit(len) => { let inf = sent.saturating_sub(acked); if inf == 0 || inf.saturating_add(*len) <= window { v.push(Got::Ok); } }
+        Kind::Credit(len) => { let inf = sent.saturating_sub(acked); if credit_fits(inf, *len, window) { v.push(Got::Ok); } }
         Kind::Reconnect => { if let Some(o) = pending { v.push(Got::Resume(o)); } }
     }
     v
@@ -214,7 +311,7 @@ struct Exec {
 
 /// Run one case against the real `TransferControl`.
 fn execute(c: &Case, rng: &mut Rng, tmo_ms: u64) -> Exec {
-    let tc = TransferControl::new(c.window);
+    let tc = make_control(c.window, &c.setup);
     let mut setup_pending = None;
     for op in &c.setup {
         match (op, apply(&tc, op)) { (Op::Adv(_), _) => setup_pending = None, (_, OpRes::ResumeOk(o)) => setup_pending = Some(o), _ => {} }
@@ -229,11 +326,14 @@ fn execute(c: &Case, rng: &mut Rng, tmo_ms: u64) -> Exec {
     let (tx, rx) = mpsc::channel::<(Got, Instant, Instant)>();
     let waiter = {
         let (tc, tid, entered, done, kind, tmo) = (tc.clone(), tid.clone(), entered.clone(), done.clone(), c.kind.clone(), c.tmo);
+        let window_parity = c.window % 2 == 0;
+        let imm_past = c.imm && c.window % 3 == 0;
         std::thread::spawn(move || {
             tid.store(gettid(), Ordering::SeqCst);
-            let span = if tmo { Duration::from_millis(tmo_ms) } else { FAR };
+            // far deadline: one hour or ten years; `imm`: now, or (credit) already a second in the past
+            let span = if tmo { Duration::from_millis(tmo_ms) } else if window_parity { FAR } else { FAR * 87_600 };
             let t0 = Instant::now();
-            let deadline = t0 + span;
+            let deadline = if imm_past { t0.checked_sub(Duration::from_secs(1)).unwrap_or(t0) } else { t0 + span };
             entered.store(true, Ordering::SeqCst);
             let r = catch(|| match kind {
                 Kind::Credit(len) => match tc.wait_for_credit(len, deadline) {
@@ -310,7 +410,7 @@ fn execute(c: &Case, rng: &mut Rng, tmo_ms: u64) -> Exec {
     let (sent, acked) = catch(|| tc.offsets()).unwrap_or((0, 0));
     let cancelled = catch(|| tc.is_cancelled()).unwrap_or(true);
     let must_return = cancelled || match &c.kind {
-        Kind::Credit(len) => { let inf = sent.saturating_sub(acked); inf == 0 || inf.saturating_add(*len) <= c.window }
+        Kind::Credit(len) => { let inf = sent.saturating_sub(acked); credit_fits(inf, *len, c.window) }
         Kind::Reconnect => pending_after(c, &snaps, &results).is_some(),
     };
 
@@ -420,7 +520,7 @@ fn oracles(out: &mut Out, c: &Case, e: &Exec, line: &str) {
     let all_ops = || c.threads.iter().flatten();
     match &e.got {
         Got::Cancelled(r) => {
-            let known = all_ops().any(|o| matches!(o, Op::Cancel(x) if format!("r{}", x) == *r));
+            let known = all_ops().any(|o| matches!(o, Op::Cancel(x) if reason_text(*x) == *r));
             if !known { out.oracle_fail(&format!("{}.value.cancel_reason", fam), &format!("returned Cancelled({}) but no cancel with that reason ran", r), &ops); }
         }
         Got::Resume(off) => {
@@ -451,7 +551,7 @@ struct World { scale: u64, window: u64, chunks: Vec<(u64, u64)>, sent: u64, acke
 /// A control object whose credit waiter (chunk `len`) has to park: window full.
 fn world(rng: &mut Rng) -> World {
     let scale = *rng.pick(&[1u64, 1, 1, 3, 1000, 1 << 20, 1 << 40]);
-    let file = *rng.pick(&[0u32, 0, 1, 2, 7]);
+    let file = *rng.pick(&[0u32, 0, 1, 2, 7, u32::MAX]);
     let mut setup = Vec::new();
     if file != 0 { setup.push(Op::Adv(file)); }
     let n = rng.range(1, 4);
@@ -471,7 +571,10 @@ fn world(rng: &mut Rng) -> World {
     if acked > 0 { setup.push(Op::Ack(file, acked)); }
     let inflight = sent - acked;
     // window: anything from 1 to a bit above in-flight; len so that in_flight + len > window
-    let (window, len) = match rng.below(16) {
+    let (window, len) = match rng.below(19) {
+        16 => (u64::MAX, (u64::MAX - inflight).saturating_add(1 + rng.below(3))),               // widest window: only an overflowing sum does not fit
+        17 => (*rng.pick(&[0u64, 1, scale, u64::MAX - 1]), u64::MAX),          // longest chunk: the sum always overflows
+        18 => (repe::DEFAULT_WINDOW_BYTES, repe::DEFAULT_WINDOW_BYTES - inflight.min(repe::DEFAULT_WINDOW_BYTES) + 1 + rng.below(3)),
         // boundaries of the credit rule `in_flight == 0 || in_flight + len <= window` (window stays full: in-flight > 0)
         0 | 1 => (0, *rng.pick(&[0u64, 0, 1, scale, inflight])),               // stop-and-wait: only in-flight 0 grants
         2 | 3 => (rng.below(inflight / scale) * scale, 0),                     // zero-length chunk, window < in-flight: an ack landing exactly on `window` grants
@@ -484,23 +587,33 @@ fn world(rng: &mut Rng) -> World {
             (window, min_len + rng.below(3) * scale)
         }
     };
-    debug_assert!(inflight > 0 && inflight + len > window);
+    debug_assert!(inflight > 0 && !credit_fits(inflight, len, window));
     World { scale, window, chunks, sent, acked, file, len, setup }
 }
 
-fn other_file(rng: &mut Rng, f: u32) -> u32 { loop { let g = rng.below(9) as u32; if g != f { return g; } } }
+fn other_file(rng: &mut Rng, f: u32) -> u32 {
+    loop {
+        let g = match rng.below(12) { 9 => u32::MAX, 10 => u32::MAX - 1, 11 => 0, k => k as u32 };
+        if g != f { return g; }
+    }
+}
 
 /// One signalling op; `harmless` = must not be able to make either wait condition true in any order.
 fn gen_op(rng: &mut Rng, w: &World, reconnect: bool, harmless: bool, reason: &mut u64) -> Op {
     let inflight = w.sent - w.acked;
     // largest ack offset that keeps the window full: sent - off + len > window  <=>  off < sent + len - window
-    let keep_full_below = (w.sent + w.len).saturating_sub(w.window).min(w.sent); // off < this keeps it full (and in-flight > 0)
+    let keep_full_below = w.sent.saturating_add(w.len).saturating_sub(w.window).min(w.sent); // off < this keeps it full (and in-flight > 0)
     loop {
         let k = rng.below(100);
-        let op = if k < 34 {
+        let op = if k < 6 {
+            // calls that must not matter: readers and set_peer (they take the same mutex)
+            if rng.chance(1, 3) { Op::SetPeer(rng.below(4)) } else { Op::Query(rng.below(7) as u8) }
+        } else if k < 34 {
             // ack
             let f = if rng.chance(5, 6) { w.file } else { other_file(rng, w.file) };
-            let off = match rng.below(7) {
+            let off = match rng.below(9) {
+                7 => 0,
+                8 => u64::MAX,                                           // capped to sent
                 0 => w.sent,
                 1 => w.sent + rng.range(1, 3) * w.scale,                 // beyond sent: capped
                 2 => w.acked.saturating_sub(rng.below(2) * w.scale),     // stale
@@ -529,14 +642,23 @@ fn gen_op(rng: &mut Rng, w: &World, reconnect: bool, harmless: bool, reason: &mu
             } else {
                 // inside a chunk or past the end
                 let c = *rng.pick(&w.chunks);
-                if c.1 > 1 && rng.chance(1, 2) { c.0 + 1 + rng.below(c.1 - 1) } else { w.sent + 1 + rng.below(3) }
+                match rng.below(8) {
+                    0 => u64::MAX,
+                    1 if w.chunks[0].1 > 0 => w.sent + w.scale,
+                    _ => if c.1 > 1 && rng.chance(1, 2) { c.0 + 1 + rng.below(c.1 - 1) } else { w.sent + 1 + rng.below(3) }
+                }
             };
             let accepted = f == w.file && (w.chunks.iter().any(|c| c.0 == off) || off == w.sent);
             if harmless && accepted { continue; }
             if !reconnect && !harmless && !accepted && rng.chance(1, 2) { continue; }
             Op::Res(f, off)
         } else {
-            let n = if rng.chance(2, 3) { w.sent + rng.range(1, 4) * w.scale } else { w.sent.saturating_sub(rng.below(3) * w.scale) };
+            let n = match rng.below(12) {
+                0 => 0,
+                1 => u64::MAX,                                           // everything in flight from now on
+                k if k < 8 => w.sent + rng.range(1, 4) * w.scale,
+                _ => w.sent.saturating_sub(rng.below(3) * w.scale),
+            };
             Op::Sent(n)
         };
         return op;
@@ -559,9 +681,9 @@ fn gen_case(rng: &mut Rng, tmo: bool) -> Case {
         } else {
             match rng.below(5) {
                 0 => { reason += 1; Op::Cancel(reason) }
-                1 => Op::Adv(other_file(rng, w.file)),
+                1 => Op::Adv(if rng.chance(1, 3) { w.file } else { other_file(rng, w.file) }),
                 2 => Op::Res(w.file, w.sent),
-                _ => Op::Ack(w.file, if rng.chance(1, 2) { w.sent } else { (w.sent + w.len).saturating_sub(w.window).min(w.sent) }),
+                _ => Op::Ack(w.file, if rng.chance(1, 2) { w.sent } else { w.sent.saturating_add(w.len).saturating_sub(w.window).min(w.sent) }),
             }
         };
     }
@@ -748,7 +870,7 @@ fn gen_multi(rng: &mut Rng) -> MultiCase {
     let n = rng.range(2, 4) as usize;
     let mut kinds = Vec::new();
     for _ in 0..n {
-        if rng.chance(2, 5) { kinds.push(Kind::Reconnect); } else { kinds.push(Kind::Credit(w.len + rng.below(4) * w.scale)); }
+        if rng.chance(2, 5) { kinds.push(Kind::Reconnect); } else { kinds.push(Kind::Credit(w.len.saturating_add(rng.below(4) * w.scale))); }
     }
     let mut reason = 0u64;
     let nops = rng.range(1, 3) as usize;
@@ -818,11 +940,20 @@ fn run_multi(out: &mut Out, c: &MultiCase, idx: u64) {
         match (op, r) { (Op::Adv(_), _) => pending = None, (Op::Res(..), OpRes::ResumeOk(o)) => pending = Some(*o), _ => {} }
     }
     let must: Vec<usize> = (0..n).filter(|&i| match &c.kinds[i] {
-        Kind::Credit(len) => { let inf = sent.saturating_sub(acked); cancelled || inf == 0 || inf.saturating_add(*len) <= c.window }
+        Kind::Credit(len) => { let inf = sent.saturating_sub(acked); cancelled || credit_fits(inf, *len, c.window) }
         Kind::Reconnect => cancelled,
     }).collect();
     let n_reconnect = c.kinds.iter().filter(|k| **k == Kind::Reconnect).count();
-    let need_one_resume = !cancelled && pending.is_some() && n_reconnect > 0;
+    // the same from the history of calls alone (one signaller: the order is known)
+    let mut spec = Spec::new(c.window);
+    for op in c.setup.iter().chain(c.ops.iter()) { spec.apply(op); }
+    let must_obs = must.clone();
+    let mut must = must;
+    for i in 0..n {
+        let by_history = match &c.kinds[i] { Kind::Credit(_) => !spec.acceptable(&c.kinds[i]).is_empty(), Kind::Reconnect => spec.cancelled.is_some() };
+        if by_history && !must.contains(&i) { must.push(i); out.count("multi.history_vs_getters_disagree"); }
+    }
+    let need_one_resume = n_reconnect > 0 && ((!cancelled && pending.is_some()) || (spec.cancelled.is_none() && spec.pending.is_some()));
     let mut got: Vec<Option<Got>> = vec![None; n];
     let satisfied = |got: &Vec<Option<Got>>| must.iter().all(|&i| got[i].is_some())
         && (!need_one_resume || (0..n).any(|i| c.kinds[i] == Kind::Reconnect && got[i].is_some()));
@@ -864,7 +995,7 @@ fn run_multi(out: &mut Out, c: &MultiCase, idx: u64) {
         match g {
             Got::Timeout => out.oracle_fail("wake.multi.timeout.early", "Timeout returned with a deadline one hour away", &ops_v),
             Got::Panic => out.oracle_fail("wake.multi.panic", "a wait panicked", &ops_v),
-            Got::Cancelled(r) if !c.ops.iter().any(|o| matches!(o, Op::Cancel(x) if format!("r{}", x) == *r)) =>
+            Got::Cancelled(r) if !c.ops.iter().any(|o| matches!(o, Op::Cancel(x) if reason_text(*x) == *r)) =>
                 out.oracle_fail("wake.multi.value.cancel_reason", &format!("returned Cancelled({}) but no cancel with that reason ran", r), &ops_v),
             Got::Resume(o) if !results.iter().any(|r| *r == OpRes::ResumeOk(*o)) =>
                 out.oracle_fail("wake.multi.value.resume", &format!("returned ResumeReady({}) but no accepted resume at that offset", o), &ops_v),
@@ -874,7 +1005,7 @@ fn run_multi(out: &mut Out, c: &MultiCase, idx: u64) {
     out.count(&format!("multi.waiters.{}", n));
     out.add("multi.returned_before_cleanup", before_cleanup.iter().flatten().count() as u64);
     let obs = format!("{} must={} cancelled={} pending={} fin={}", idx,
-        if must.is_empty() { "-".to_string() } else { must.iter().map(|i| i.to_string()).collect::<Vec<_>>().join(",") },
+        if must_obs.is_empty() { "-".to_string() } else { must_obs.iter().map(|i| i.to_string()).collect::<Vec<_>>().join(",") },
         if cancelled { 1 } else { 0 }, if pending.is_some() { 1 } else { 0 }, fin);
     out.case(&line, &obs, !must.is_empty() || need_one_resume);
 }
@@ -979,7 +1110,7 @@ fn run_sq(c: SqCase, seed: u64) -> SqResult {
     let mut rng = Rng::new(seed);
     let fam = match c.kind { Kind::Credit(_) => "wake.credit", Kind::Reconnect => "wake.reconnect" };
     let (k, len) = match &c.kind { Kind::Credit(l) => ("credit", *l), Kind::Reconnect => ("reconnect", 0) };
-    let tc = TransferControl::new(c.window);
+    let tc = make_control(c.window, &c.setup);
     for op in &c.setup { apply(&tc, op); }
     let mut res = SqResult { kind: c.kind.clone(), lines: vec![], fails: vec![] };
     let total = c.n_timeouts + 1;
@@ -1069,6 +1200,173 @@ fn log_sq(out: &mut Out, r: SqResult, idx: &mut u64) {
     }
 }
 
+
+// ------------------------------------------------------------------------------------------
+// An independent reading of the documented semantics, driven by the op history alone (never by the
+// control's own getters): what the waiter's condition is after a known sequence of calls.
+// ------------------------------------------------------------------------------------------
+#[derive(Clone, Debug)]
+struct Spec { window: u64, sent: u64, acked: u64, file: u32, cancelled: Option<u64>, pending: Option<u64>, ring: Vec<(u64, u64)> }
+
+impl Spec {
+    fn new(window: u64) -> Spec { Spec { window, sent: 0, acked: 0, file: 0, cancelled: None, pending: None, ring: vec![] } }
+    fn covers(&self, off: u64) -> bool {
+        match self.ring.last() {
+            None => off == 0,
+            Some(l) => self.ring.iter().any(|c| c.0 == off) || l.0.checked_add(l.1) == Some(off),
+        }
+    }
+    fn apply(&mut self, op: &Op) {
+        match op {
+            Op::Sent(n) => if *n > self.sent { self.sent = *n },
+            Op::Ack(f, o) => if *f == self.file { let c = (*o).min(self.sent); if c > self.acked { self.acked = c } },
+            Op::Cancel(r) => if self.cancelled.is_none() { self.cancelled = Some(*r) },
+            Op::Adv(f) => { self.file = *f; self.sent = 0; self.acked = 0; self.ring.clear(); self.pending = None }
+            Op::Res(f, o) => if self.cancelled.is_none() && *f == self.file && self.covers(*o) {
+                self.pending = Some(*o);
+                if *o > self.acked && *o <= self.sent { self.acked = *o }
+            },
+            Op::Push(o, l) => self.ring.push((*o, *l)),
+            // cancel is tested before the staged resume: a cancelled control keeps it
+            Op::Take | Op::Waited(None) => if self.cancelled.is_none() { self.pending = None },
+            Op::Waited(Some(_)) => {}
+            Op::SetPeer(_) | Op::Query(_) => {}
+        }
+    }
+    fn acceptable(&self, kind: &Kind) -> Vec<Got> {
+        acceptable(kind, self.window, self.sent, self.acked, &self.cancelled.map(reason_text), self.pending)
+    }
+}
+
+// ------------------------------------------------------------------------------------------
+// `life`: one control lived through 4-6 waits of both kinds, with ops before and during them; every
+// later wait must behave as on a fresh control in the same abstract state (logged as `sq` lines whose
+// setup is the whole history, so the model judges exactly that)
+// ------------------------------------------------------------------------------------------
+fn run_life(seed: u64, fixed: Option<(u64, Vec<Op>, Kind, Option<Op>)>) -> SqResult {
+    let mut rng = Rng::new(seed);
+    let mut w = world(&mut rng);
+    if let Some((window, setup, _, _)) = &fixed { w.window = *window; w.setup = setup.clone(); }
+    let mut hist: Vec<Op> = w.setup.clone();
+    let tc = make_control(w.window, &hist);
+    let mut spec = Spec::new(w.window);
+    for op in &hist { apply(&tc, op); spec.apply(op); }
+    let mut res = SqResult { kind: Kind::Reconnect, lines: vec![], fails: vec![] };
+    let mut reason = 0u64;
+    let rounds = if fixed.is_some() { 1 } else { rng.range(4, 8) };
+    let mut prev_kind: Option<Kind> = None;   // a producer often asks again for the same chunk
+    let mut seen_lens: Vec<u64> = Vec::new();
+    for round in 0..rounds {
+        // something happens between two waits
+        for _ in 0..(if fixed.is_some() { 0 } else { rng.below(3) }) {
+            let op = match rng.below(6) {
+                0 => Op::Sent(spec.sent.saturating_add(rng.range(1, 5) * w.scale)),
+                1 => Op::Ack(spec.file, spec.acked.saturating_add(rng.below(3))),
+                2 => Op::Query(rng.below(7) as u8),
+                3 => Op::SetPeer(rng.below(4)),
+                4 => Op::Res(spec.file, spec.ring.last().map(|l| l.0 + l.1).unwrap_or(0).saturating_add(1 + rng.below(2))),  // not covered
+                _ => Op::Ack(other_file(&mut rng, spec.file), u64::MAX),
+            };
+            apply(&tc, &op); spec.apply(&op); hist.push(op);
+        }
+        let kind = if prev_kind.is_some() && rng.chance(2, 5) { prev_kind.clone().unwrap() } else if rng.chance(1, 2) { Kind::Reconnect } else {
+            let inf = spec.sent.saturating_sub(spec.acked);
+            if !seen_lens.is_empty() && rng.chance(1, 2) { Kind::Credit(*rng.pick(&seen_lens)) }   // the same chunk again, later in life
+            else { Kind::Credit(*rng.pick(&[0u64, 1, w.len, spec.window, spec.window.saturating_sub(inf).saturating_add(1), u64::MAX])) }
+        };
+        let kind = if let Some((_, _, k, _)) = &fixed { k.clone() } else { kind };
+        if let Kind::Credit(l) = &kind { if !seen_lens.contains(l) { seen_lens.push(*l); } }
+        prev_kind = Some(kind.clone());
+        let fam = match kind { Kind::Credit(_) => "wake.credit", Kind::Reconnect => "wake.reconnect" };
+        let (k, len) = match &kind { Kind::Credit(l) => ("credit", *l), Kind::Reconnect => ("reconnect", 0) };
+        let at_entry = spec.acceptable(&kind);
+        // what happens during this wait
+        let enabling: Option<Op> = if !at_entry.is_empty() || rng.chance(2, 5) { None } else {
+            Some(match (&kind, rng.below(4)) {
+                (_, 0) => { reason += 1; Op::Cancel(reason) }
+                (Kind::Reconnect, _) => Op::Res(spec.file, spec.ring.last().map(|l| l.0 + l.1).unwrap_or(0)),
+                (Kind::Credit(_), 1) => Op::Adv(if rng.chance(1, 3) { spec.file } else { other_file(&mut rng, spec.file) }),
+                (Kind::Credit(_), _) => Op::Ack(spec.file, spec.sent),
+            })
+        };
+        let enabling = if let Some((_, _, _, e)) = &fixed { if at_entry.is_empty() { e.clone() } else { None } } else { enabling };
+        let d = if enabling.is_some() { Duration::from_millis(1500) } else { Duration::from_millis(2 + rng.below(14)) };
+        let (tx, rx) = mpsc::channel::<(Got, Instant, Instant)>();
+        let waiter = {
+            let (tc, kind) = (tc.clone(), kind.clone());
+            std::thread::spawn(move || {
+                let t0 = Instant::now();
+                let deadline = t0 + d;
+                let r = catch(|| match kind {
+                    Kind::Credit(len) => match tc.wait_for_credit(len, deadline) {
+                        Ok(()) => Got::Ok,
+                        Err(CreditError::Cancelled(r)) => Got::Cancelled(r),
+                        Err(CreditError::Timeout) => Got::Timeout,
+                    },
+                    Kind::Reconnect => match tc.wait_for_reconnect(d) {
+                        ReconnectOutcome::ResumeReady(p) => Got::Resume(p.resume_at_offset),
+                        ReconnectOutcome::Cancelled(r) => Got::Cancelled(r),
+                        ReconnectOutcome::Timeout => Got::Timeout,
+                    },
+                });
+                let t1 = Instant::now();
+                let _ = tx.send((r.unwrap_or(Got::Panic), deadline, t1));
+            })
+        };
+        let mut thr = "-".to_string();
+        let mut op_done = None;
+        let mut after_op: Vec<Got> = vec![];
+        if let Some(op) = &enabling {
+            std::thread::sleep(Duration::from_micros(rng.below(3000)));
+            apply(&tc, op);
+            op_done = Some(Instant::now());
+            spec.apply(op);
+            after_op = spec.acceptable(&kind);
+            thr = op.show();
+        }
+        let r = rx.recv_timeout(d + WATCHDOG).ok();
+        let (sent, acked) = catch(|| tc.offsets()).unwrap_or((0, 0));
+        let cancelled = catch(|| tc.is_cancelled()).unwrap_or(true);
+        let fin = format!("{}:{}:{}", sent, acked, if cancelled { 1 } else { 0 });
+        let got = r.as_ref().map(|x| x.0.clone()).unwrap_or(Got::Parked);
+        let line = format!("sq IDX {} {} {} setup={} thr={} order=- got={} fin={}", k, len, w.window, show_ops(&hist), thr, got.show(), fin);
+        let nth = format!("wait {} of {} in the life of one control ({} ms deadline)", round + 1, rounds, d.as_millis());
+        match &r {
+            None => {
+                res.fails.push((format!("{}.timeout.never", fam), format!("{}: no return within deadline + 10 s", nth), line.clone()));
+                let _ = catch(|| tc.cancel("cleanup"));
+                let _ = rx.recv_timeout(WATCHDOG);
+            }
+            Some((g, deadline, t1)) => {
+                if !at_entry.is_empty() {
+                    if !at_entry.contains(g) {
+                        let sig = if *g == Got::Timeout { "timeout.before_condition" } else { "value.at_entry" };
+                        res.fails.push((format!("{}.{}", fam, sig), format!("{}: by the history of calls the condition holds at entry (expected {}), the wait returned {}", nth,
+                            at_entry.iter().map(|x| x.show()).collect::<Vec<_>>().join(" or "), g.show()), line.clone()));
+                    }
+                } else if *g == Got::Timeout && t1 < deadline {
+                    res.fails.push((format!("{}.timeout.early", fam), format!("{}: Timeout returned {} ms before this wait's own deadline", nth, deadline.saturating_duration_since(*t1).as_millis()), line.clone()));
+                } else if *g == Got::Timeout && !after_op.is_empty() && op_done.map(|t| t < *deadline).unwrap_or(false) {
+                    res.fails.push((format!("{}.missed_wakeup", fam), format!("{}: {} completed {} ms before the deadline and makes the condition true, the wait slept on to its deadline", nth, thr,
+                        deadline.saturating_duration_since(op_done.unwrap()).as_millis()), line.clone()));
+                } else if *g != Got::Timeout && !after_op.contains(g) {
+                    res.fails.push((format!("{}.value.unjustified", fam), format!("{}: returned {} but by the history of calls the condition {}", nth, g.show(),
+                        if after_op.is_empty() { "never held".to_string() } else { format!("gives {}", after_op.iter().map(|x| x.show()).collect::<Vec<_>>().join(" or ")) }), line.clone()));
+                }
+            }
+        }
+        if r.is_some() { let _ = waiter.join(); }
+        res.lines.push((line, format!("IDX {} {}", got.show(), fin)));
+        if r.is_none() { break; }
+        if let Some(op) = enabling { hist.push(op); }
+        let wop = Op::Waited(match &kind { Kind::Credit(l) => Some(*l), Kind::Reconnect => None });
+        // the spec consumes the resume only if this wait really returned it (it may have timed out first)
+        if let Got::Resume(_) = got { spec.apply(&wop); hist.push(wop); }
+        else if !matches!(kind, Kind::Reconnect) || spec.pending.is_none() || spec.cancelled.is_some() { hist.push(wop); }
+    }
+    res
+}
+
 // ------------------------------------------------------------------------------------------
 // `race`: many fast rounds, waiter and signaller released together, start offset swept
 // ------------------------------------------------------------------------------------------
@@ -1088,11 +1386,11 @@ fn race_round(rng: &mut Rng, i: u64) -> RaceRound {
     let enabling = if reconnect {
         if rng.chance(1, 2) { Op::Res(w.file, *rng.pick(&covered)) } else { Op::Cancel(rng.range(1, 9)) }
     } else {
-        match rng.below(4) { 0 => Op::Cancel(rng.range(1, 9)), 1 => Op::Adv(other_file(rng, w.file)), 2 => Op::Res(w.file, w.sent),
+        match rng.below(4) { 0 => Op::Cancel(rng.range(1, 9)), 1 => Op::Adv(if rng.chance(1, 3) { w.file } else { other_file(rng, w.file) }), 2 => Op::Res(w.file, w.sent),
             // the smallest sufficient ack (in-flight lands exactly on window - len, or on 0) or everything
-            _ => Op::Ack(w.file, if rng.chance(1, 2) { w.sent } else { (w.sent + w.len).saturating_sub(w.window).min(w.sent) }) }
+            _ => Op::Ack(w.file, if rng.chance(1, 2) { w.sent } else { w.sent.saturating_add(w.len).saturating_sub(w.window).min(w.sent) }) }
     };
-    let keep_full_below = (w.sent + w.len).saturating_sub(w.window).min(w.sent);
+    let keep_full_below = w.sent.saturating_add(w.len).saturating_sub(w.window).min(w.sent);
     let style = i % 4;
     let mut ops = Vec::new();
     let (mut wdelay, mut sdelay, mut mid_delay) = (0u32, 0u32, 0u32);
@@ -1117,7 +1415,7 @@ fn race_batch(out: &mut Out, rounds: Vec<RaceRound>, idx: &mut u64, until: Insta
     use std::sync::atomic::AtomicUsize;
     let n = rounds.len();
     let ctls: Arc<Vec<Arc<TransferControl>>> = Arc::new(rounds.iter().map(|r| {
-        let tc = TransferControl::new(r.window);
+        let tc = make_control(r.window, &r.setup);
         for op in &r.setup { apply(&tc, op); }
         tc
     }).collect());
@@ -1194,10 +1492,16 @@ fn race_batch(out: &mut Out, rounds: Vec<RaceRound>, idx: &mut u64, until: Insta
         }
         let (sent, acked) = catch(|| tc.offsets()).unwrap_or((0, 0));
         let cancelled = catch(|| tc.is_cancelled()).unwrap_or(true);
-        let must_return = cancelled || match &r.kind {
-            Kind::Credit(len) => { let inf = sent.saturating_sub(acked); inf == 0 || inf.saturating_add(*len) <= r.window }
+        let must_real = cancelled || match &r.kind {
+            Kind::Credit(len) => { let inf = sent.saturating_sub(acked); credit_fits(inf, *len, r.window) }
             Kind::Reconnect => results.iter().any(|x| matches!(x, OpRes::ResumeOk(_))),
         };
+        // the same question answered from the history of calls alone (one signaller: the order is known)
+        let mut spec = Spec::new(r.window);
+        for op in r.setup.iter().chain(r.ops.iter()) { spec.apply(op); }
+        let must_spec = !spec.acceptable(&r.kind).is_empty();
+        if must_spec != must_real { out.count("race.history_vs_getters_disagree"); }
+        let must_return = must_real || must_spec;
         let returned = wait_done(i, if must_return { RACE_WATCHDOG } else { Duration::from_millis(2) });
         let mut cleanup_missed = false;
         let got = if returned { slots[i].lock().unwrap().clone().unwrap_or(Got::Panic) } else {
@@ -1273,11 +1577,11 @@ fn run_case(out: &mut Out, c: &Case, idx: u64, rng: &mut Rng) {
 
 fn main() {
     let args = Args::parse();
-    quiet_panics();
+    if std::env::var("WAKE_LOUD").is_err() { quiet_panics(); }
     let mut out = Out::new(&args.out);
     out.flush_each = true;
     let mut rng = Rng::new(args.seed);
-    out.rule = "one real thread in wait_for_credit/wait_for_reconnect (deadline 1 h) on a TransferControl whose window is full; the harness waits until /proc shows the waiter asleep (70%) or races its entry (30%); then 1-3 ops (ack: exact/insufficient/capped/stale/foreign, cancel, advance, resume: covered/uncovered/foreign, sent) from 1-3 threads with random yields/spins, signallers serialised by a harness lock (linearisation recorded) or free; values scaled by 1..2^40; 3/8 of the worlds sit on a boundary of the credit rule (window 0, chunk_len 0, chunk_len = window, oversized chunk) and enabling acks land in-flight exactly on the grant boundary or on 0. Oracles: condition true in the real final state => waiter returns within 10 s; never Timeout; returned value matches a state that occurred. `tmo` cases: 1-31 ms deadline, 0-3 ops that cannot satisfy the condition (many of them notify), spread over the wait, must return Timeout, not before the deadline. `imm` cases: deadline already passed at entry and condition already true: the matching value must be returned, not Timeout. `race` rounds: waiter and signaller released together from a spin barrier, start offset swept (signaller 0-200 spins later / waiter 0-64 spins later / a non-enabling wake-up then the enabling one 0-4000 spins apart), last op makes the condition true, 5 s watchdog. `multi` cases: 2-4 waiters of mixed kinds (credit with different chunk lengths, reconnect) parked on one control, 1-3 ops: every waiter whose condition holds in the final state must return, a staged resume must be taken by exactly one reconnect waiter, one cancel releases all the rest. `wd`: the registry's idle watchdog (200 ms idle timeout) cancels two idle transfers whose producers are parked: both must return Cancelled(transfer idle). `sq` cases: 2-3 waits one after the other on the SAME control: 1-2 short ones (1-12 ms) that must time out, then one with a fresh 40-120 ms deadline during which, in 3/5 of the cases, an enabling op arrives: never Timeout before that wait's own deadline, never Timeout when the op completed before it. `trk` cases: 300-400 ms deadline, a non-enabling ack every ~deadline/4, must return Timeout no later than deadline + 3 s. Non-trivial = the final state obliges the waiter to return, or a tmo case; distinct by op line (incl. observed order/outcome)".into();
+    out.rule = "one real thread in wait_for_credit/wait_for_reconnect (deadline 1 h) on a TransferControl whose window is full; the harness waits until /proc shows the waiter asleep (70%) or races its entry (30%); then 1-3 ops (ack: exact/insufficient/capped/stale/foreign, cancel, advance, resume: covered/uncovered/foreign, sent) from 1-3 threads with random yields/spins, signallers serialised by a harness lock (linearisation recorded) or free; values scaled by 1..2^40; 3/8 of the worlds sit on a boundary of the credit rule (window 0, chunk_len 0, chunk_len = window, oversized chunk) and enabling acks land in-flight exactly on the grant boundary or on 0. Oracles: condition true in the real final state => waiter returns within 10 s; never Timeout; returned value matches a state that occurred. `tmo` cases: 1-31 ms deadline, 0-3 ops that cannot satisfy the condition (many of them notify), spread over the wait, must return Timeout, not before the deadline. `imm` cases: deadline already passed at entry and condition already true: the matching value must be returned, not Timeout. `race` rounds: waiter and signaller released together from a spin barrier, start offset swept (signaller 0-200 spins later / waiter 0-64 spins later / a non-enabling wake-up then the enabling one 0-4000 spins apart), last op makes the condition true, 5 s watchdog. `multi` cases: 2-4 waiters of mixed kinds (credit with different chunk lengths, reconnect) parked on one control, 1-3 ops: every waiter whose condition holds in the final state must return, a staged resume must be taken by exactly one reconnect waiter, one cancel releases all the rest. `wd`: the registry's idle watchdog (200 ms idle timeout) cancels two idle transfers whose producers are parked: both must return Cancelled(transfer idle). `sq` cases: 2-3 waits one after the other on the SAME control: 1-2 short ones (1-12 ms) that must time out, then one with a fresh 40-120 ms deadline during which, in 3/5 of the cases, an enabling op arrives: never Timeout before that wait's own deadline, never Timeout when the op completed before it. `life` cases: one control through 4-6 waits of both kinds (chunk_len 0/1/window/u64::MAX...), ops between and during the waits, later waits after Timeout / Ok / ResumeReady (resume consumed) / Cancelled results; expectations come from a harness-side reading of the call history (not from the control's getters). `trk` cases: 300-400 ms deadline, a non-enabling ack every ~deadline/4, must return Timeout no later than deadline + 3 s. Non-trivial = the final state obliges the waiter to return, or a tmo case; distinct by op line (incl. observed order/outcome)".into();
     let mut idx = 0u64;
     if let Some(lines) = args.replay_ops() {
         for l in lines {
@@ -1299,11 +1603,19 @@ fn main() {
                     continue;
                 }
                 if l.starts_with("sq ") {
-                    for _ in 0..10 {
+                    for i in 0..10 {
                         if out.oracle_failures >= MAX_FAILURES { break; }
                         let enabling = c.threads.iter().flatten().next().cloned();
-                        let r = run_sq(SqCase { kind: c.kind.clone(), window: c.window, setup: c.setup.clone(), enabling, n_timeouts: 1 + (rng.below(2) as u32) }, rng.next());
+                        // the recorded wait on a control with the recorded history (earlier waits included, `w:*`) ...
+                        let r = run_life(rng.next(), Some((c.window, c.setup.clone(), c.kind.clone(), enabling.clone())));
                         log_sq(&mut out, r, &mut idx);
+                        // ... and, when the history says the wait starts with its condition false, also preceded by waits that time out
+                        let mut spec = Spec::new(c.window);
+                        for op in &c.setup { spec.apply(op); }
+                        if i % 2 == 0 && spec.acceptable(&c.kind).is_empty() {
+                            let r = run_sq(SqCase { kind: c.kind.clone(), window: c.window, setup: c.setup.clone(), enabling, n_timeouts: 1 + (rng.below(2) as u32) }, rng.next());
+                            log_sq(&mut out, r, &mut idx);
+                        }
                     }
                     continue;
                 }
@@ -1333,6 +1645,8 @@ fn main() {
             let seed = rng.next();
             std::thread::spawn(move || run_sq(c, seed))
         }).collect();
+        let n_life = if args.thorough() { 400 } else { 64 };
+        let life: Vec<_> = (0..n_life).map(|_| { let seed = rng.next(); std::thread::spawn(move || run_life(seed, None)) }).collect();
         let wdog = { let seed = rng.next(); std::thread::spawn(move || run_watchdog_case(seed)) };
         // entry races
         let (n_race, race_budget) = if args.thorough() { (400000, Duration::from_secs(150)) } else { (30000, Duration::from_secs(8)) };
@@ -1378,6 +1692,9 @@ fn main() {
         }
         for h in sq {
             if let Ok(r) = h.join() { log_sq(&mut out, r, &mut idx); }
+        }
+        for h in life {
+            if let Ok(r) = h.join() { out.count("life.controls"); log_sq(&mut out, r, &mut idx); }
         }
         if let Ok(r) = wdog.join() {
             for (sig, detail, line) in &r.fails { out.oracle_fail(sig, detail, &[line.clone()]); }
